@@ -143,6 +143,11 @@ def real_endpoint_scenarios(res, sig):
                     dev = R._DEV_CLASSES[name](router=router)
                     dev.message_from_client = lambda message, name=name: log.append(("d", name, message))
                     devs[name] = dev
+                # the library's own catch-all device: the Proxy driver accepts every device name
+                from indi.device.proxy import Proxy
+
+                px = type("PX", (Proxy,), {"name": "PX", "address": "127.0.0.1"})(router=router)
+                px.message_from_client = lambda message: log.append(("d", "PX", message))
 
                 class Rec(Client):
                     def message_from_device(self, message):
@@ -173,12 +178,12 @@ def real_endpoint_scenarios(res, sig):
                 got_d = sorted(n for k, n, m in log if k == "d")
                 got_c = sorted(n for k, n, m in log if k == "c")
                 res["deliveries"] += len(log)
-                want_d = sorted(n for n in R.DEVNAMES if addr is None or addr == n)
+                want_d = sorted([n for n in R.DEVNAMES if addr is None or addr == n] + ["PX"])
                 if kind == "getProperties":
                     want_c = sorted(["R"] + [sn for sn in snoops if sn != origin])
                 else:
                     want_c = []
-                res["nondeliveries"] += (len(R.DEVNAMES) + 4) - len(log)
+                res["nondeliveries"] += (len(R.DEVNAMES) + 5) - len(log)
                 if got_d != want_d:
                     why = "missing" if len(got_d) < len(want_d) else "extra-or-duplicate"
                     note("device-delivery", d + "," + why, "%s device=%r from %s: devices got %r, expected %r" % (kind, addr, origin, got_d, want_d), rep)
